@@ -33,6 +33,18 @@ fn check_checksum_field(orig: &[u8], rec: &mut Rec, what: &dyn Fn() -> String) -
         crcref::masked(orig),                 // checksum of the whole file
         crcref::masked(&orig[..n - 5]),       // one byte short
         crcref::masked(&orig[16..n - 4]),     // body without the header
+        // simple transforms of the correct value (a verifier that normalises too much)
+        !good,
+        good.swap_bytes(),
+        good.rotate_left(15),
+        good.rotate_right(15),
+        good.rotate_left(17),
+        good.rotate_left(8),
+        good.rotate_left(16),
+        good.wrapping_sub(0xA282_EAD8),
+        good ^ 0xA282_EAD8,
+        good.wrapping_add(0xA282_EAD8),
+        good.reverse_bits(),
     ];
     for c in candidates {
         if c == good {
